@@ -40,9 +40,26 @@ def gen_cases(rng, tier):
         cases.append(['tear 1', 'logsum'] + pre + mid + ['logsum', 'c 0', 'c 1', 'c 2', 'tear 0'] + (['corrupt 0'] if pre else []))
     out = []
     for i, seq in enumerate(cases):
-        # corrupt/rmdir only when nothing is open would be cleaner, but the model handles any order
-        out.append(['case f%d' % i, 'prep %d' % rng.choice([1, 3, 6])] + seq)
+        out.append(['case f%d' % i, 'prep %d' % rng.choice([1, 3, 6])] + no_corruption_under_a_writer(seq))
     return out
+
+
+def no_corruption_under_a_writer(seq):
+    """Flock.v's idx_bad means "the index file of the HEAD segment is corrupt".  A read-write handle that is open when
+    the file is damaged can move the head away from it (a Publish that rolls over) or rewrite it (a Delete), which the
+    lock-table model does not follow; the damage is therefore only applied while no read-write handle can be open
+    (once it is in effect every read-write Open fails, so none appears later either)."""
+    maybe_rw, res = set(), []
+    for op in seq:
+        f = op.split()
+        if f[0] == 'o' and f[2] == '0':
+            maybe_rw.add(f[1])
+        elif f[0] == 'c':
+            maybe_rw.discard(f[1])
+        if op == 'corrupt 1' and maybe_rw:
+            op = 'q 0'
+        res.append(op)
+    return res
 
 
 def c19_extra(pid, tier, seed):
